@@ -9,7 +9,7 @@ import common
 
 def build_model():
     """coq/Router/*.vo -> extraction -> build/<key>/bin/router_modelrun. Returns (path|None, log)."""
-    ok, log = common.coq_make(["Router/Wire.vo"])
+    ok, log = common.coq_make(["Router/Wire.vo", "Router/RouterTop.vo"])
     if not ok:
         return None, log
     d = common.build_dir("router_model")
